@@ -151,6 +151,16 @@ EndInit == /\ Enabled("init") /\ InInit /\ Len(stk) = Top.base + 1 /\ InitTagOK(
               frames' = IF fs[ri].k = "pkg" THEN fs ELSE [fs EXCEPT ![ri].n = @ + 1]
            /\ NoCtx /\ Rec("EndInit", "1")
 
+\* A rejected initialiser: EndInit(2) for one name is reported ("assignment mismatch"), but the initialiser context is left all
+\* the same - the operands are popped and the enclosing construct is current again (endInit's deferred clean-up) - so a client
+\* that collects errors can go on with the same builder and close the enclosing constructs.
+EndInitRejected == /\ Enabled("reject") /\ InInit /\ Len(stk) = Top.base + 2
+                   /\ stk[Len(stk)] \in {"int", "bool"} /\ stk[Len(stk) - 1] \in {"int", "bool"}
+                   /\ stk' = SubSeq(stk, 1, Len(stk) - 2)
+                   /\ LET fs == Pop1  ri == RealIdxIn(fs) IN
+                      frames' = IF fs[ri].k = "pkg" THEN fs ELSE [fs EXCEPT ![ri].n = @ + 1]
+                   /\ NoCtx /\ Rec("EndInitRejected", "2")
+
 (* ---------------------------- block-forming statements ---------------------------- *)
 Open(k, st, op) == /\ StmtCtx /\ IsBody(Real) /\ InFunc /\ Len(frames) < MaxNest
                    /\ frames' = Append(frames, Frame(k, st)) /\ NewScope
@@ -299,7 +309,7 @@ Next ==
   \/ \E t \in ValTags : Val(t)
   \/ VarRefOp \/ AssignOp \/ Bin("+", "int", "int") \/ Bin("==", "int", "bool") \/ Unary
   \/ (\E f \in {"g0", "g1", "gv"} : ValFn(f)) \/ CallOp \/ EndStmt \/ ResetStmt \/ Return0
-  \/ DefineStart \/ NewVarStart \/ EndInit
+  \/ DefineStart \/ NewVarStart \/ EndInit \/ EndInitRejected
   \/ If \/ ThenIf \/ Else \/ EndIf \/ For \/ NoneOp \/ ThenFor \/ Post \/ EndFor
   \/ Switch \/ ThenSwitch \/ Case \/ Default \/ ThenCase \/ Fallthrough \/ EndClause \/ EndSwitch
   \/ TypeSw \/ (\E t \in {"iface", "slice", "type"} : ValX(t)) \/ TypeAssertThen \/ TypeCase \/ TypeDefault \/ ThenTypeCase \/ EndTypeSw
